@@ -340,6 +340,20 @@ func runC07(c *ShardCtx) {
 			{Name: "B", Expr: peg.Choice(peg.Seq(peg.Ref("C"), lit("y")), peg.Seq(peg.Ref("A"), lit("y")), lit("b"))},
 			{Name: "C", Expr: peg.Choice(peg.Seq(peg.Ref("A"), lit("z")), peg.Seq(peg.Ref("B"), lit("z")), lit("c"))}}})
 	}
+	// a rule name defined TWICE (pigeon has no duplicate check; the generated parser uses the last
+	// definition): one definition left-recursive, the other not, in both orders, directly and behind
+	// another rule - whichever definition the parser runs is the one the verdict must be about
+	{
+		lit := peg.Lit
+		lr := func() *peg.Expr { return peg.Choice(peg.Seq(peg.Ref("E"), lit("x"), peg.Ref("N")), peg.Ref("N")) }
+		ok := func() *peg.Expr { return peg.Seq(peg.Ref("N"), peg.Star(peg.Seq(lit("x"), peg.Ref("N")))) }
+		nrule := func() *peg.Rule { return &peg.Rule{Name: "N", Expr: lit("a")} }
+		for _, order := range [][2]func() *peg.Expr{{lr, ok}, {ok, lr}, {lr, lr}, {ok, ok}} {
+			check(&peg.Grammar{Rules: []*peg.Rule{{Name: "S", Expr: peg.Seq(peg.Ref("E"), peg.Not(peg.Any()))}, {Name: "E", Expr: order[0]()}, nrule(), {Name: "E", Expr: order[1]()}}})
+			check(&peg.Grammar{Rules: []*peg.Rule{{Name: "E", Expr: order[0]()}, nrule(), {Name: "E", Expr: order[1]()}}})
+			check(&peg.Grammar{Rules: []*peg.Rule{{Name: "S", Expr: peg.Ref("E")}, {Name: "E", Expr: order[0]()}, {Name: "E", Expr: order[1]()}, nrule()}})
+		}
+	}
 	forceBuild = false
 	// two rules
 	p2set, r2set := reduced, refReduced
